@@ -153,6 +153,7 @@ type RunLine struct {
 	WallMs   float64  `json:"wall_ms"`
 	Replayed *bool    `json:"replay_reproduced,omitempty"`
 	Avoid    bool     `json:"avoid,omitempty"`
+	Prelim   bool     `json:"preliminary,omitempty"` // written before minimisation; superseded by a later line of the same index/sub
 }
 
 func envInt(name string, def int64) int64 {
@@ -308,12 +309,27 @@ func WorkerMain(t *testing.T, props map[string]*Prop) {
 				if dup {
 					line.Replay = firstReplay[oc.Viol[0].Sig]
 				}
-				if !dup && (!isKnown || os.Getenv("VERIF_SHRINK_KNOWN") != "") {
-					Shrink(t, pr.Engine, rp, 60*time.Second)
-				}
+				name := ""
 				if replayDir != "" && !dup {
 					os.MkdirAll(replayDir, 0o755)
-					name := filepath.Join(replayDir, fmt.Sprintf("%s-%s-%d.%d.json", id, tier, idx, sub))
+					name = filepath.Join(replayDir, fmt.Sprintf("%s-%s-%d.%d.json", id, tier, idx, sub))
+				}
+				if !dup && (!isKnown || os.Getenv("VERIF_SHRINK_KNOWN") != "") {
+					// the finding is on record (unminimised) before minimisation starts, in case it is cut short
+					if name != "" {
+						b, _ := json.MarshalIndent(rp, "", " ")
+						if err := os.WriteFile(name, b, 0o644); err == nil {
+							pre := *line
+							pre.Replay, pre.Prelim = name, true
+							poc := *oc
+							poc.Trace = nil
+							pre.Outcome = &poc
+							emit(&pre)
+						}
+					}
+					Shrink(t, pr.Engine, rp, 30*time.Second)
+				}
+				if name != "" {
 					b, _ := json.MarshalIndent(rp, "", " ")
 					if err := os.WriteFile(name, b, 0o644); err == nil {
 						line.Replay = name
